@@ -121,13 +121,17 @@ fn run_cfg(c: &Cfg) -> (u64, bool, usize, u64, String) {
             if c.set {
                 let mut set = RecordSet::default();
                 for _ in 0..rl + 2 {
-                    rdr.read_record_set(&mut set).unwrap().unwrap();
+                    if !matches!(rdr.read_record_set(&mut set), Some(Ok(()))) {
+                        break;
+                    }
                 }
                 let (cap0, bc0, p0) = (rdr.verif_capacity(), set.buf_capacity(), rdr.policy().0);
                 let mut sink = 0usize;
                 allocs = measure(|| {
                     for _ in 0..3 * (rl + 2) {
-                        rdr.read_record_set(&mut set).unwrap().unwrap();
+                        if !matches!(rdr.read_record_set(&mut set), Some(Ok(()))) {
+                            break;
+                        }
                         for r in &set {
                             sink += r.head().len() + r.seq().len();
                             for l in r.seq_lines() {
@@ -138,18 +142,24 @@ fn run_cfg(c: &Cfg) -> (u64, bool, usize, u64, String) {
                     }
                 });
                 std::hint::black_box(sink);
-                cap_changed = rdr.verif_capacity() != cap0 || set.buf_capacity() != bc0;
-                pol = rdr.policy().0 - p0;
+                cap_changed = rdr.verif_capacity() != cap0 || set.buf_capacity() != bc0 || cap0 != c.cap;
+                pol = rdr.policy().0;
+                let _ = p0;
                 info = format!("reader capacity {} -> {}, set buffer capacity {} -> {}", cap0, rdr.verif_capacity(), bc0, set.buf_capacity());
             } else {
                 for _ in 0..rl + 2 {
-                    rdr.next().unwrap().unwrap();
+                    if !matches!(rdr.next(), Some(Ok(_))) {
+                        break;
+                    }
                 }
                 let (cap0, p0) = (rdr.verif_capacity(), rdr.policy().0);
                 let mut sink = 0usize;
                 allocs = measure(|| {
                     for _ in 0..3 * (rl + 2) {
-                        let r = rdr.next().unwrap().unwrap();
+                        let r = match rdr.next() {
+                            Some(Ok(r)) => r,
+                            _ => break,
+                        };
                         sink += r.head().len() + r.seq().len() + r.id_bytes().len();
                         for l in r.seq_lines() {
                             sink += l.len();
@@ -158,8 +168,9 @@ fn run_cfg(c: &Cfg) -> (u64, bool, usize, u64, String) {
                     }
                 });
                 std::hint::black_box(sink);
-                cap_changed = rdr.verif_capacity() != cap0;
-                pol = rdr.policy().0 - p0;
+                cap_changed = rdr.verif_capacity() != cap0 || cap0 != c.cap;
+                pol = rdr.policy().0;
+                let _ = p0;
                 info = format!("reader capacity {} -> {}", cap0, rdr.verif_capacity());
             }
         }
@@ -169,13 +180,17 @@ fn run_cfg(c: &Cfg) -> (u64, bool, usize, u64, String) {
             if c.set {
                 let mut set = RecordSet::default();
                 for _ in 0..rl + 2 {
-                    rdr.read_record_set(&mut set).unwrap().unwrap();
+                    if !matches!(rdr.read_record_set(&mut set), Some(Ok(()))) {
+                        break;
+                    }
                 }
                 let (cap0, bc0, p0) = (rdr.verif_capacity(), set.buf_capacity(), rdr.policy().0);
                 let mut sink = 0usize;
                 allocs = measure(|| {
                     for _ in 0..3 * (rl + 2) {
-                        rdr.read_record_set(&mut set).unwrap().unwrap();
+                        if !matches!(rdr.read_record_set(&mut set), Some(Ok(()))) {
+                            break;
+                        }
                         for r in &set {
                             sink += r.head().len() + r.seq().len() + r.qual().len();
                             measured += 1;
@@ -183,25 +198,32 @@ fn run_cfg(c: &Cfg) -> (u64, bool, usize, u64, String) {
                     }
                 });
                 std::hint::black_box(sink);
-                cap_changed = rdr.verif_capacity() != cap0 || set.buf_capacity() != bc0;
-                pol = rdr.policy().0 - p0;
+                cap_changed = rdr.verif_capacity() != cap0 || set.buf_capacity() != bc0 || cap0 != c.cap;
+                pol = rdr.policy().0;
+                let _ = p0;
                 info = format!("reader capacity {} -> {}, set buffer capacity {} -> {}", cap0, rdr.verif_capacity(), bc0, set.buf_capacity());
             } else {
                 for _ in 0..rl + 2 {
-                    rdr.next().unwrap().unwrap();
+                    if !matches!(rdr.next(), Some(Ok(_))) {
+                        break;
+                    }
                 }
                 let (cap0, p0) = (rdr.verif_capacity(), rdr.policy().0);
                 let mut sink = 0usize;
                 allocs = measure(|| {
                     for _ in 0..3 * (rl + 2) {
-                        let r = rdr.next().unwrap().unwrap();
+                        let r = match rdr.next() {
+                            Some(Ok(r)) => r,
+                            _ => break,
+                        };
                         sink += r.head().len() + r.seq().len() + r.qual().len() + r.id_bytes().len();
                         measured += 1;
                     }
                 });
                 std::hint::black_box(sink);
-                cap_changed = rdr.verif_capacity() != cap0;
-                pol = rdr.policy().0 - p0;
+                cap_changed = rdr.verif_capacity() != cap0 || cap0 != c.cap;
+                pol = rdr.policy().0;
+                let _ = p0;
                 info = format!("reader capacity {} -> {}", cap0, rdr.verif_capacity());
             }
         }
@@ -285,7 +307,7 @@ fn main() {
         Report {
             property: "C18".into(),
             tier: args[2].clone(),
-            rule: "formats x uniform record shapes (FASTA 1-3 sequence lines, FASTQ) x line lengths x LF/CRLF x EVERY capacity from record length + 1 to 5 record lengths (and 64 KiB) x {next(), read_record_set into one reused set}: warm-up over record length + 2 records / batches (a full period of the batch-size pattern), then 3 further periods measured with a counting global allocator (thread-local window) while all borrowed accessors are called: allocation count must be 0, reader capacity and RecordSet::buf_capacity() unchanged, policy not consulted; non-trivial = every configuration (all measure > 0 records)".into(),
+            rule: "formats x uniform record shapes (FASTA 1-3 sequence lines, FASTQ) x line lengths x LF/CRLF x EVERY capacity from record length + 1 to 5 record lengths (and 64 KiB) x {next(), read_record_set into one reused set}: warm-up over record length + 2 records / batches (a full period of the batch-size pattern), then 3 further periods measured with a counting global allocator (thread-local window) while all borrowed accessors are called: allocation count must be 0, reader capacity and RecordSet::buf_capacity() unchanged in the window and reader capacity = initial capacity (all records fit), policy never consulted in the whole run; non-trivial = every configuration (all measure > 0 records)".into(),
             exhaustive: true,
             assumptions: vec!["allocations of the measured thread only; uniform record streams (records of varying shape may legitimately allocate when a slot of a reused set first meets a record with more lines)".into()],
             extra: json!({"states_note": "states = configurations; transitions = records read inside measured windows"}),
